@@ -84,6 +84,7 @@ def answer (st : OState) (ws : List String) : OState × String :=
       | "c01c" => "c01c=" ++ b2s (Trace.deliveredWhenPossible tr)
       | "c01d" => "c01d=" ++ b2s (Trace.noSilentLoss tr)
       | "c02" => "c02=" ++ b2s (Trace.c02 tr)
+      | "c02d" => "c02d=" ++ b2s (Trace.keptAcrossSingleFault tr)
       | "c02a" => "c02a=" ++ b2s (Trace.attemptsBounded tr)
       | "c02b" => "c02b=" ++ b2s (Trace.neverAtOrAfterExpiry tr)
       | "c02c" => "c02c=" ++ b2s (Trace.resentFirst tr)
